@@ -19,7 +19,7 @@ const repoMod = "github.com/JunNishimura/Goit"
 // interpretedStd: standard-library packages whose pure functions may be executed from their own SSA when no intrinsic
 // model exists (so that a change to Goit that starts using e.g. strings.HasPrefix is still encoded).
 var interpretedStd = map[string]bool{"strings": true, "bytes": true, "strconv": true, "sort": true, "path": true, "path/filepath": true,
-	"errors": true, "unicode/utf8": true, "slices": true, "cmp": true, "math/bits": true, "internal/stringslite": true, "internal/bytealg": true, "internal/itoa": true, "io": true, "unicode": true, "bufio": true, "encoding/hex": true, "container/list": true, "container/heap": true, "unicode/utf16": true, "text/scanner": false}
+	"errors": true, "unicode/utf8": true, "slices": true, "cmp": true, "math/bits": true, "internal/stringslite": true, "internal/bytealg": true, "internal/itoa": true, "io": true, "unicode": true, "bufio": true, "encoding/hex": true, "container/list": true, "container/heap": true, "unicode/utf16": true, "internal/filepathlite": true}
 
 type Loaded struct {
 	prog    *ssa.Program
